@@ -453,9 +453,11 @@ static void doOp(const std::vector<std::string>& f)
     // istmt C TEXT [budget]: CLI-like route: interactive parser, parseStatement, execute chain
     Ctx& c = C(f[1]);
     long budget = f.size() > 3 ? atol(f[3].c_str()) : -1;
-    if (!c.ireader) { c.ireader = new StringReader(); c.iparser = Parser::createInteractiveParser(*c.ctx, *c.ireader); }
-    c.ireader->reset("\n").append(hexdec(f[2])).append("\n");
-    c.iparser->clear();
+    // a parser that has seen the end of its stream must not be reused (the CLI re-creates it as well): one parser per fed text
+    delete c.iparser; c.iparser = nullptr;
+    if (!c.ireader) c.ireader = new StringReader();
+    c.ireader->reset(hexdec(f[2])).append("\n");
+    c.iparser = Parser::createInteractiveParser(*c.ctx, *c.ireader);
     std::string res; int nst = 0;
     beginRun(c.ctx, budget);
     for (;;)
